@@ -5,13 +5,15 @@ thread sets, all schedules) tied to tso.go by the regenerated shape facts (`sour
 harness/racetest's TestTsoCas: N goroutines of Commit(r) / Deal() / GetRevision() on the real tso.NewTSO(), asserting
 the theorems' observable consequences (GetRevision samples never decrease, Deal results pairwise distinct and increasing
 per goroutine, after its Commit(r) a goroutine reads >= r and deals > r, after all Commits committed >= max r and the
-deal cursor >= max r). A failed assertion is a concrete failing input (the test's log is the replay)."""
+deal cursor >= max r; every dealt revision within the window of a later committed sample), and TestTsoWindow (with nobody
+committing exactly MaxInFlight-1 revisions are dealt and every further Deal is refused; a Commit(k) frees exactly k; a
+lagging committer). A failed assertion is a concrete failing input (the test's log is the replay)."""
 import re
 import time
 
 from . import core
 
-CMD = ["go", "test", "-vet=off", "-v", "-tags", "verif", "-count=1", "-timeout", "5m", "-run", "^TestTsoCas$", "./racetest/"]
+CMD = ["go", "test", "-vet=off", "-v", "-tags", "verif", "-count=1", "-timeout", "5m", "-run", "^TestTso(Cas|Window)$", "./racetest/"]
 
 
 def run_dynamic(rep, prop, seed):
@@ -19,19 +21,20 @@ def run_dynamic(rep, prop, seed):
     t0 = time.time()
     rc, out = core.sh(CMD, cwd=core.HARNESS, env=dict(core.GOENV, KB_RACE_SEED=str(seed)), timeout=900)
     logs = re.findall(r"tso_race_test\.go:\d+: (.*)", out)
-    failed = re.search(r"^--- FAIL: TestTsoCas\b", out, re.M) is not None
-    passed = re.search(r"^--- PASS: TestTsoCas\b", out, re.M) is not None
+    failed = re.search(r"^--- FAIL: TestTso(Cas|Window)\b", out, re.M) is not None
+    passed = all(re.search(r"^--- PASS: %s\b" % t, out, re.M) is not None for t in ("TestTsoCas", "TestTsoWindow"))
     rep.cov["tso_cas_dynamic"] = {"cmd": "cd harness && " + " ".join(CMD), "wall_s": round(time.time() - t0, 1),
                                   "result": "fail" if failed else ("pass" if passed else "did-not-run"), "log": logs[:12]}
-    c = core.Case("racetest", ["# " + " ".join(CMD), "workload TestTsoCas seed=%d" % seed] + ["log " + l for l in logs[:12]])
-    c.impl = ["TestTsoCas: %s" % ("assertion failed" if failed else "ok" if passed else "did not run")]
+    c = core.Case("racetest", ["# " + " ".join(CMD), "workload TestTsoCas+TestTsoWindow seed=%d" % seed] + ["log " + l for l in logs[:12]])
+    c.impl = ["TestTsoCas/TestTsoWindow: %s" % ("assertion failed" if failed else "ok" if passed else "did not run")]
     c.model = []
     rep.count_case(c)
     text = "# rerun: cd %s && KB_RACE_SEED=%d %s\n%s" % (core.HARNESS, seed, " ".join(CMD),
                                                         "\n".join("# " + l for l in out.splitlines()[-60:]))
     if failed:
         rep.violation(core.write_replay(prop, "tso-cas-dynamic", text="# oracle: the real tso violated a consequence of "
-                                        "KB.C18Cas under concurrent Commit/Deal/GetRevision: %s\n%s" % ("; ".join(logs[:3]), text)))
+                                        "KB.C18Cas under concurrent Commit/Deal/GetRevision: %s\n%s" %
+                                        ("; ".join([l for l in logs if ": rounds=" not in l and ": W=" not in l][:3]), text)))
         return True
     if not passed:
         rep.violation(core.write_replay(prop, "tso-cas-dynamic-did-not-run", text="# the tso workload did not build/run\n" + text),
